@@ -439,7 +439,7 @@ type ipSummary struct {
 
 func c01R2(c *Ctx) {
 	p := c.P
-	c.Rule("C01.R2", "an address is marked owned ((*IP).Allocate / Local.commit) only if, in the same critical section, it was returned by Set.PeekAvailable for the same pod id on this ENI's pool (Fresh) or already marked for that pod (Owned); any release point (Unlock, Cond.Wait, channel op, Sleep) turns Fresh into Stale")
+	c.Rule("C01.R2", "an address is marked owned ((*IP).Allocate / Local.commit) only if, in the same critical section, it was returned by Set.PeekAvailable for the same pod id on this ENI's pool (Fresh) or already marked for that pod (Owned); any release point (Unlock, Cond.Wait) turns Fresh into Stale")
 	full := modPath + "/" + eniPkg
 	allocM := p.Method(eniPkg, "IP", "Allocate")
 	peekM := p.Method(eniPkg, "Set", "PeekAvailable")
